@@ -321,7 +321,7 @@ func sizeClass(n int) string {
 
 func main() {
 	vf.Main("C11", "exploration", func(c *vf.Ctx) {
-		c.Rule = "constructor side: members with W3C token keys, values/property values from a UTF-8 generator (delimiters, %, %41, spaces, quotes, non-BMP, U+FFFD), 0-4 properties, sizes straddling 180 members / 4096 per member / 8192 total, through NewMember (percent-encoded) and NewMemberRaw; parser side: mutated valid headers and raw bytes; edit programs on a baggage held in three contexts; every constructed baggage is also extracted into contexts that already carry baggage. distinct = distinct (family, accept/reject, size class, member-count class, escape classes) signatures"
+		c.Rule = "constructor side: members with W3C token keys, values/property values from a UTF-8 generator (delimiters, %, %41, spaces, quotes, non-BMP, U+FFFD), 0-4 properties, sizes straddling 180 members / 4096 per member / 8192 total, through NewMember (percent-encoded) and NewMemberRaw; parser side: mutated valid headers and raw bytes; edit programs on a baggage held in three contexts; every constructed baggage is also extracted into contexts that already carry baggage; baggage stored on contexts derived from one another. distinct = distinct (family, accept/reject, size class, member-count class, escape classes) signatures"
 		c.Assume = []string{"round trip is required for W3C token keys (NewMemberRaw also admits arbitrary UTF-8 keys which String() omits; exercised for no-panic only)", "properties with an empty key produced by a trailing ';' carry nothing and are ignored when comparing"}
 		prop := propagation.Baggage{}
 
